@@ -80,7 +80,8 @@ func hkTable() *hk[int] {
 		return c.tab[id]
 	}
 	return &hk[int]{
-		lv: lv,
+		retainSlack: 4096, // the harness's own table codec (reachable through tree.bck) grows as keys are defined
+		lv:          lv,
 		state: func(t Tree[int, uint64]) vpTreeState {
 			tt := t.(*compoundSortedTree[int, uint64])
 			return vpTreeState{tt.root, tt.size, lv}
